@@ -64,6 +64,26 @@ def run(tier, replay=None):
             kinds.append(("signed-permutation", sp[k], [0.0, 0.0, 0.0]))
         for kind, R, t in kinds:
             base.append((c, kind, R, t))
+    # shells whose direction from the ECP is tilted by 0.005..0.2 degrees off a coordinate axis (where the harmonics code has
+    # its special cases sin(theta)=0, atan2 on an axis), mapped onto the other axes by the cyclic permutations
+    cyc = [[[0.0, 0.0, 1.0], [1.0, 0.0, 0.0], [0.0, 1.0, 0.0]], [[0.0, 1.0, 0.0], [0.0, 0.0, 1.0], [1.0, 0.0, 0.0]]]
+    for k in range(12 if tier == "quick" else 120):
+        axis = k % 3; sign = 1.0 if (k // 3) % 2 == 0 else -1.0
+        tilt = math.radians(rng.choice([0.005, 0.02, 0.05, 0.1, 0.2]))
+        az = rng.uniform(0, 2 * math.pi)
+        d = [math.sin(tilt) * math.cos(az), math.sin(tilt) * math.sin(az), math.cos(tilt)]
+        d = [sign * x for x in (d[-axis:] + d[:-axis] if axis else d)]
+        C = [rng.uniform(-1, 1) for _ in range(3)]
+        r = rng.uniform(1.0, 2.0)
+        A = [c + r * x for c, x in zip(C, d)]
+        B = [c + x for c, x in zip(C, gen.rand_point(rng, 0.8, 2.0))]
+        LA, LB, L = rng.randint(0, 2), rng.randint(0, 2), rng.randint(1, 3)
+        c = {"id": "x", "extra": {"geom": "near-axis", "order": 1, "deriv": 1}, "shells": [gen.rand_shell(rng, LA, A, nprim=1, emin=0.8, emax=3.0), gen.rand_shell(rng, LB, B, nprim=1, emin=0.8, emax=3.0)],
+             "ecps": [gen.rand_ecp(rng, L, C, nper=(1, 1), amin=0.8, amax=3.0)]}
+        if k % 2:
+            c["shells"] = [c["shells"][1], c["shells"][0]]
+        for R in cyc:
+            base.append((c, "near-axis cyclic permutation", R, [0.0, 0.0, 0.0]))
     # quick: make sure all 48 signed permutations occur at least once
     if tier == "quick":
         seen = set()
